@@ -20,7 +20,7 @@ THOROUGH = {
     "random": 800,
     "gen": dict(length=50, weights={"store": 14, "expunge": 10, "uidexpunge": 8, "copy": 10, "move": 10, "close": 5,
                                     "examine": 4, "append": 8, "search": 0, "fetchbody": 2}),
-    "tlc_timeout": 3000,
+    "tlc_timeout": 1500,
    }
 
 def fn(ck, a):
